@@ -22,7 +22,10 @@ pub fn exec(case: &Value) -> Vec<Value> {
         .collect();
     let with_norm = get_bool(case, "norm");
     let freqs: Vec<usize> = case["freqs"].as_array().unwrap().iter().map(|x| x.as_u64().unwrap() as usize).collect();
-    let num_merges = get_u(case, "num_merges");
+    // `vs` = [vocab_size, num_special_tokens] as handed to train_bpe (default: 320 and 64 - num_merges); the number of merges
+    // asked for is what is left of the vocabulary behind the 256 bytes and the special tokens - nothing, if they use it up
+    let vs: Option<(usize, usize)> = case.get("vs").and_then(|x| x.as_array()).map(|a| (a[0].as_u64().unwrap() as usize, a[1].as_u64().unwrap() as usize));
+    let num_merges = match vs { Some((v, sp)) => v.saturating_sub(256).saturating_sub(sp), None => get_u(case, "num_merges") };
     let per_line = get_u(case, "per_line").max(1);
     let seed = case.get("seed").and_then(|x| x.as_u64()).unwrap_or(0);
     // all word occurrences, shuffled, `per_line` words per line separated by single spaces
@@ -82,7 +85,8 @@ pub fn exec(case: &Value) -> Vec<Value> {
         }
         // vocab_size must be a multiple of 64: 320 - 256 - (64 - m) = m merges
         let norm = if with_norm { Some(Normalization::NFKC) } else { None };
-        let r = guard(|| train_bpe(&inps, 320, 64 - num_merges.min(64), &outp, if max_lines > 0 { Some(max_lines) } else { None }, norm, threads, false));
+        let (vocab_size, num_special) = vs.unwrap_or((320, 64 - num_merges.min(64)));
+        let r = guard(|| train_bpe(&inps, vocab_size, num_special, &outp, if max_lines > 0 { Some(max_lines) } else { None }, norm, threads, false));
         quiet_panics(); // train_bpe installs its own (printing) panic hook
         let mut st = match r {
             Ok(Ok(())) => "ok".to_string(),
@@ -121,6 +125,7 @@ pub fn gen(seed: u64, n: usize) -> Vec<Value> {
             let max_lines = [0, 0, 1, 2, 4][rng.random_range(0..5)];
             json!({"words": words, "freqs": freqs, "num_merges": rng.random_range(0..=24), "per_line": rng.random_range(1..=3),
                    "seed": rng.random::<u32>(), "threads": [th], "norm": rng.random_bool(0.5), "alpha": alpha,
+                   "vs": if rng.random_bool(0.1) { json!([[256, 1], [256, 4], [320, 65], [0, 4], [192, 0], [320, 64], [320, 61], [64, 1]][rng.random_range(0..8)]) } else { Value::Null },
                    "files": rng.random_range(1..=3), "max_lines": max_lines, "blanks": if rng.random_bool(0.3) { rng.random_range(1..=5) } else { 0 }})
         })
         .collect()
